@@ -65,7 +65,7 @@ REACH = ['pywbem._tupleparse:TupleParser.check_node',
 
 def plan(tier):
     if tier == 'quick':
-        return dict(cases=12000, time_s=80, case_cpu_s=30)
+        return dict(cases=24000, time_s=80, case_cpu_s=30)
     return dict(cases=300000, time_s=540, case_cpu_s=60)
 
 
@@ -190,6 +190,17 @@ GARBAGE = [
     b'\xef\xbb\xbf<CIM CIMVERSION="2.0" DTDVERSION="2.0"/>',
     b'<?xml version="1.0" encoding="utf-16"?><CIM/>',
     b'<?xml version="1.1"?><CIM CIMVERSION="2.0" DTDVERSION="2.0"/>',
+    b'<?xml version="1.0" encoding="foo"?><CIM CIMVERSION="2.0" '
+    b'DTDVERSION="2.0"/>',
+    b'<?xml version="1.0" encoding="hex"?><CIM/>',
+    b'<?xml version="1.0" encoding="idna"?><CIM/>',
+    b'<?xml version="1.0" encoding="utf-7"?><CIM/>',
+    b'<?xml version="1.0" encoding="rot13"?><CIM/>',
+    b'<?xml version="1.0" encoding="latin-1"?><CIM CIMVERSION="2.0" '
+    b'DTDVERSION="2.0">\xe4</CIM>',
+    b'<?xml version="1.0" encoding="ascii"?><CIM>\xe4</CIM>',
+    b'<?xml version="1.0" encoding=""?><CIM/>',
+    b'<?xml version="1.0" encoding="utf-8" standalone="maybe"?><CIM/>',
     b'<!DOCTYPE x [<!ENTITY a "aaaa">]><CIM>&a;</CIM>',
     b'<CIM CIMVERSION="2.0" DTDVERSION="2.0">\xc0\xaf</CIM>',
     b'<CIM CIMVERSION="2.0" DTDVERSION="2.0">\xed\xa0\x80</CIM>',
@@ -358,11 +369,14 @@ def mutate(rng, data, pool):
     kind = rng.choice(['attr-value', 'attr-value', 'attr-value', 'attr-drop',
                        'attr-drop', 'text', 'text', 'el-drop', 'el-dup',
                        'el-swap', 'el-foreign', 'value-null', 'el-rename',
-                       'attr-add', 'deep', 'context', 'context', 'context'])
+                       'attr-add', 'deep', 'context', 'context', 'context',
+                       'context', 'context', 'context'])
     try:
         if kind == 'context':
             cands = [e for e in els if e.tag in ALLOWED]
-            e = rng.choice(cands)
+            top = [e for e in cands if e.tag in ('IRETURNVALUE', 'PARAMVALUE',
+                                                 'RETURNVALUE')]
+            e = rng.choice(top if top and rng.random() < 0.7 else cands)
             alt = rng.choice(ALLOWED[e.tag])
             n = len(e)
             for c in list(e):
@@ -508,8 +522,16 @@ def transport_fault(rng):
         "(Caused by NewConnectionError('WBEMConnection(url=x, creds=y): "
         "Failed'))",
     ]
-    r = rng.randrange(14)
+    r = rng.randrange(18)
     RE = requests.exceptions
+    if r == 14:
+        return RE.ConnectionError()
+    if r == 15:
+        return RE.ReadTimeout(None)
+    if r == 16:
+        return RE.RetryError(12345)
+    if r == 17:
+        return RE.SSLError(('tuple', 'arg'), 'second')
     if r == 0:
         return RE.ConnectionError('conn failed')
     if r == 1:
